@@ -46,6 +46,7 @@ def specCommand (kind : String) (args : List String) : Option String :=
   | "GATE" => gateCommand args
   | "HEXCHECK" => hexCheckCommand args
   | "EVAL" => evalCommand args
+  | "DATA" => dataCommand args
   | _ => none
 
 end Avra.Spec
